@@ -464,6 +464,13 @@ def exCSess : CSess :=
 example : outcome12 .full (some exCSess) [5, 5] [] 0x2f = ⟨.done, .done, false, false⟩ := by decide
 example : outcome12 (.resume { sessOfPayload exPayload with sessionID := [5, 5] }) (some exCSess) [5, 5] [] 0 =
     ⟨.done, .done, true, true⟩ := by decide
+/-- a stolen ticket: the server resumes, but a client holding another secret cannot complete -/
+example : outcome12 (.resume { sessOfPayload exPayload with sessionID := [5, 5] })
+    (some { exCSess with secret := 77 }) [5, 5] [] 0 =
+    ⟨.localAlert .bad_record_mac, .remoteAlert .bad_record_mac, false, false⟩ := by decide
+/-- a corrupted binder is refused -/
+example : serverResume13 exEnv13 exSettings 1100 (3, 4) .sha256 (applyEdit exHello13 (.badBinder 0)) =
+    .alert .illegal_parameter := by decide
 /-- an invalidated client session is not offered at all -/
 example : clientPrepare (some (exCSess.shutdown false)) [] [104] = some none := by decide
 
